@@ -176,11 +176,12 @@ func genTmplURI(r *vh.Rand, pp string) string {
 
 func raceCases(ninst, nshots int) []string {
 	var out []string
-	for _, p := range []string{"http", "httpscen", "grpc", "grpcscen", "ammo"} {
+	for _, p := range []string{"http", "httpscen", "grpc", "grpcscen", "ammo", "httplate"} {
 		// http/grpc: shared client off/on; scenarios: [next] only / +[rand] / +randString / +randInt,uuid;
 		// suffix c: the shared rps schedule is a composite of many short parts
 		vs := map[string][]string{"http": {"0", "1c"}, "httpscen": {"0c", "1", "2", "3c"},
-			"grpc": {"0c", "1"}, "grpcscen": {"0", "1c", "2c", "3"}, "ammo": {"0", "1"}}[p]
+			"grpc": {"0c", "1"}, "grpcscen": {"0", "1c", "2c", "3"}, "ammo": {"0", "1"},
+			"httplate": {"0", "1"}, "cfg": {"0"}}[p]
 		for _, v := range vs {
 			out = append(out, fmt.Sprintf("race %s %d %d %s", p, ninst, nshots, v))
 		}
@@ -188,14 +189,35 @@ func raceCases(ninst, nshots int) []string {
 	return out
 }
 
+// map-valued gun option set differently per pool
+func genCfg(r *vh.Rand, ninst int) string {
+	kinds := []string{"grpc", "grpcscen"}
+	md := func() string {
+		switch r.Intn(4) {
+		case 0:
+			return "-"
+		case 1:
+			return vh.HexS("x-tenant") + "=" + vh.HexS(r.Pick([]string{"A", "B", "C"}))
+		default:
+			return vh.HexS("authorization") + "=" + vh.HexS("token-"+r.Pick([]string{"1", "2", "3"})) + "," + vh.HexS(r.Pick([]string{"x-a", "x-b"})) + "=" + vh.HexS("1")
+		}
+	}
+	a, b := md(), md()
+	for a == b {
+		b = md()
+	}
+	return fmt.Sprintf("cfg %s %s %d %s %s", r.Pick(kinds), r.Pick(kinds), ninst, a, b)
+}
+
 func gen(r *vh.Rand, tier string) []string {
 	switch tier {
 	case "race-quick":
-		return raceCases(4, 240)
+		return append(raceCases(4, 240), genCfg(r, 4), genCfg(r, 4))
 	case "race-thorough":
 		var out []string
 		for i := 0; i < 3; i++ {
 			out = append(out, raceCases(8, 2000+400*i)...)
+			out = append(out, genCfg(r, 8), genCfg(r, 8))
 		}
 		return out
 	}
@@ -210,6 +232,9 @@ func gen(r *vh.Rand, tier string) []string {
 		out = append(out, fmt.Sprintf("ammo %d %d 2800 2300 1", r.Range(2, 6), r.PickInt([]int{200, 300, 400})))
 		out = append(out, fmt.Sprintf("ammo %d %d 2800 2300 0", r.Range(2, 6), r.PickInt([]int{200, 300})))
 		out = append(out, fmt.Sprintf("ammo %d %d 1200 0 1", r.Range(2, 6), r.PickInt([]int{200, 400})))
+	}
+	for i := 0; i < 4+n/100; i++ {
+		out = append(out, genCfg(r, r.Range(1, 4)))
 	}
 	for i := 0; i < n/2; i++ {
 		out = append(out, fmt.Sprintf("own %d %d %s", r.Range(1, 8), r.Range(0, 40), vh.B(r.Bool())))
